@@ -326,6 +326,37 @@ Theorem C02_cut_in_compressed_wrapper : forall decomp fuel m m1 co off last late
 Proof. exact cut_in_compressed_wrapper. Qed.
 Print Assumptions C02_cut_in_compressed_wrapper.
 
+(* the high watermark the Batch sees — compared with the fetch offset for the "nothing to read"
+   shortcut of Conn.ReadBatchWith — is the high_watermark field of the partition header for
+   every fetch version, never the last stable offset: a response of an open transaction
+   (last stable offset below the high watermark) fetched at the last stable offset is decoded
+   like any other *)
+Theorem C02_hwm_of_header_v5 : forall h, hwm_of_header 5 h = fh_hwm h.
+Proof. exact hwm_of_header_v5. Qed.
+Print Assumptions C02_hwm_of_header_v5.
+Theorem C02_header_fields_do_not_matter : forall decomp fuel v offset h i remain late,
+  fetch_close_hdr decomp fuel v offset h i remain late = fetch_close decomp fuel offset (fh_hwm h) i remain late.
+Proof. exact fetch_close_hdr_hwm. Qed.
+Print Assumptions C02_header_fields_do_not_matter.
+
+(* Batch.Read / Conn.Read (io.Reader style): a read whose buffer is too short for the next value
+   fails with io.ErrShortBuffer and is a no-op on the position — Batch.Offset and, after Close,
+   Conn.offset are still the offset the batch had before the call, so the retry with a larger
+   buffer on a new batch gets the very record that was not handed out; a read whose buffer is
+   long enough hands out the value and continues as Batch.ReadMessage would *)
+Theorem C02_short_read_keeps_position : forall decomp fuel b g b' n t,
+  batch_read1 decomp fuel b = BMsg g b' -> n < len (g_val g) ->
+  exists bs, batch_reads decomp fuel b (n :: t) = ([RShort], bs, true)
+             /\ b_off bs = b_off b /\ fst (fst (reads_close bs true)) = b_off b.
+Proof. exact short_read_keeps_position. Qed.
+Print Assumptions C02_short_read_keeps_position.
+Theorem C02_long_read_delivers : forall decomp fuel b g b' n t,
+  batch_read1 decomp fuel b = BMsg g b' -> len (g_val g) <= n ->
+  batch_reads decomp fuel b (n :: t)
+  = (let '(rs, b2, sh) := batch_reads decomp fuel b' t in (RVal (g_val g) :: rs, b2, sh)).
+Proof. exact long_read_delivers. Qed.
+Print Assumptions C02_long_read_delivers.
+
 (* instances (identity codec): a compressed v2 batch of three records after an uncompressed one,
    the whole response announced, the connection cut 10 bytes before its end / right after the
    compressed batch's header: the first batch is delivered, nothing of the cut one, Conn.offset
